@@ -97,12 +97,18 @@ type N struct {
 	known map[uint32]int // what has been printed as E lines
 	parts string         // participant ids as last printed
 	conf  *config.Config
+	trans *net.InmemTransport
+	lastTopo int
+	origin   string // how the node got its validator set, for the oracle's messages
+	reset bool // the hashgraph was reset by a fast-forward / rebuilt by a bootstrap: sync requests are not generated for it
 }
 
 type nodeOpts struct {
 	maintenance, fastsync bool
 	suspendLimit, syncLimit int
 	preload *N // events of this node are inserted before Init: initialUndeterminedEvents > 0
+	store     hg.Store // nil: a fresh InmemStore
+	bootstrap bool     // conf.Bootstrap: Init replays the store
 }
 
 func (w *World) newNode(self int, current, genesis []int, o nodeOpts) *N {
@@ -114,10 +120,15 @@ func (w *World) newNode(self int, current, genesis []int, o nodeOpts) *N {
 	conf.SuspendLimit = o.suspendLimit
 	conf.SyncLimit = o.syncLimit
 	conf.CacheSize = 50000
+	conf.Bootstrap = o.bootstrap
+	var store hg.Store = o.store
+	if store == nil {
+		store = hg.NewInmemStore(conf.CacheSize)
+	}
 	_, trans := net.NewInmemTransport(w.peers[self].NetAddr)
 	app := dummy.NewInmemDummyClient(hx.QuietLogger())
 	nd := node.NewNode(conf, node.NewValidator(w.privs[self], w.peers[self].Moniker), w.peerSet(current), w.peerSet(genesis),
-		hg.NewInmemStore(conf.CacheSize), trans, app)
+		store, trans, app)
 	if o.preload != nil {
 		oc := o.preload.n.VerifCore()
 		diff, _ := oc.EventDiff(map[uint32]int{})
@@ -135,10 +146,16 @@ func (w *World) newNode(self int, current, genesis []int, o nodeOpts) *N {
 	if err := nd.Init(); err != nil {
 		panic(err)
 	}
-	x := &N{w: w, id: w.nextN, self: self, n: nd, app: app, known: map[uint32]int{}, conf: conf}
+	x := &N{w: w, id: w.nextN, self: self, origin: "configured", n: nd, app: app, known: map[uint32]int{}, conf: conf, trans: trans, lastTopo: -1}
 	w.nextN++
+	x.declare()
+	return x
+}
+
+// declare prints the N line of the node (again after a fast-forward: the model node restarts with an empty event list).
+func (x *N) declare() {
 	ids := []int{}
-	for id := range nd.VerifCore().KnownEvents() {
+	for id := range x.n.VerifCore().KnownEvents() {
 		ids = append(ids, int(id))
 	}
 	sort.Ints(ids)
@@ -146,9 +163,8 @@ func (w *World) newNode(self int, current, genesis []int, o nodeOpts) *N {
 	for _, id := range ids {
 		fmt.Fprintf(out, " %d", id)
 	}
-	fmt.Fprintf(out, " cfg %d %d\n", conf.SyncLimit, conf.SuspendLimit)
+	fmt.Fprintf(out, " cfg %d %d\n", x.conf.SyncLimit, x.conf.SuspendLimit)
 	x.parts = x.partsStr()
-	return x
 }
 
 func (x *N) partsStr() string {
@@ -256,6 +272,12 @@ func (x *N) newEvents() []*hg.Event {
 		}
 	}
 	sort.Slice(evs, func(i, j int) bool { return evs[i].VerifTopologicalIndex() < evs[j].VerifTopologicalIndex() })
+	if len(evs) > 0 {
+		if t := evs[0].VerifTopologicalIndex(); t <= x.lastTopo && !x.reset {
+			fmt.Fprintf(out, "Z topo-regression node=%d first=%d last_printed=%d creator=%d index=%d\n", x.id, t, x.lastTopo, x.w.peerIDOf(evs[0].Creator()), evs[0].Index())
+		}
+		x.lastTopo = evs[len(evs)-1].VerifTopologicalIndex()
+	}
 	return evs
 }
 
@@ -399,7 +421,12 @@ func knownTok(m map[uint32]int) string {
 
 // genRequest makes a request for node x; other nodes provide real events.
 func (w *World) genRequest(x *N, others []*N) request {
-	switch w.rng.Intn(10) {
+	r := w.rng.Intn(10)
+	if x.reset && r < 3 {
+		// the event list of a node whose hashgraph was reset is not tracked for the model: no sync requests
+		r = 3 + w.rng.Intn(7)
+	}
+	switch r {
 	case 0, 1, 2:
 		k := w.genKnown(x)
 		limit := []int{0, 1, 2, 5, 1000, 1000, 1000}[w.rng.Intn(7)]
@@ -619,11 +646,11 @@ func (w *World) checkSuspend(x *N) {
 	}
 	if st == _state.Babbling {
 		if (tooMany || evicted) && after != _state.Suspended {
-			V("did-not-suspend", fmt.Sprintf("undetermined=%d initial=%d limit=%d validators=%d evicted=%v state=%s", len(h.UndeterminedEvents),
+			V("did-not-suspend", fmt.Sprintf("node=%d %s undetermined=%d initial=%d limit=%d validators=%d evicted=%v state=%s", x.id, x.origin, len(h.UndeterminedEvents),
 				x.n.VerifInitialUndetermined(), x.conf.SuspendLimit, c.Validators().Len(), evicted, after))
 		}
 		if !(tooMany || evicted) && after != _state.Babbling {
-			V("suspended-without-cause", fmt.Sprintf("undetermined=%d initial=%d limit=%d validators=%d state=%s", len(h.UndeterminedEvents),
+			V("suspended-without-cause", fmt.Sprintf("node=%d %s undetermined=%d initial=%d limit=%d validators=%d state=%s", x.id, x.origin, len(h.UndeterminedEvents),
 				x.n.VerifInitialUndetermined(), x.conf.SuspendLimit, c.Validators().Len(), after))
 		}
 	}
@@ -900,6 +927,7 @@ func main() {
 	seqLen := flag.Int("seq", 7, "requests per state")
 	nq := flag.Int("noquorum", 6, "no-quorum runs")
 	ev := flag.Int("evict", 2, "eviction runs")
+	mb := flag.Int("member", 4, "membership-change runs (join / leave, then fast-forward or bootstrap, then no quorum)")
 	flag.Parse()
 	out = bufio.NewWriterSize(os.Stdout, 1<<20)
 	defer out.Flush()
@@ -915,6 +943,9 @@ func main() {
 	}
 	for i := 0; i < *ev; i++ {
 		w.evictionScenario(3+w.rng.Intn(2), 260)
+	}
+	for i := 0; i < *mb; i++ {
+		w.membershipScenario(i%2 == 0, 10+w.rng.Intn(6), i%3 == 2)
 	}
 	keys := []string{}
 	for k := range stats {
